@@ -38,6 +38,10 @@ THEOREMS = [f"NauyacaVerif.C09.{t}" for t in (
     "denied_53_whatever_limiter", "admitted_defers_to_limiter",
     "denyLine_tie", "denyLine_known", "strict_tie", "third_attempt_tie", "chain_order_tie")] + ['NauyacaVerif.Translated.isAllowed_eq']
 TRANSLATED = ['isAllowed']
+# AccessControl.process_request itself (decision handed on unchanged, the 53 line), translated and composed with the translated _is_allowed
+LEAN_TARGETS = LEAN_TARGETS + ["NauyacaVerif.Props.Tr.AclProcess"]
+TRANSLATED = TRANSLATED + ["aclProcessRequest"]
+THEOREMS = list(THEOREMS) + [f"NauyacaVerif.Translated.{t}" for t in ("acl_process_eq", "acl_process_line")]
 EXTRACT = ["mwResponses"]
 ASSUMPTIONS = [
     "text parsing of list entries and peer addresses is ipaddress's (CPython 3.12.1): the model receives (family, integer, prefix length); an entry is 'interpretable' iff ipaddress.ip_network(entry) (strict) accepts it",
